@@ -336,15 +336,15 @@ func C14(tier string) int {
 	note := bind.Type("ActivityStreams/Note")
 	log := &cbLog{}
 	wrong := map[string]interface{}{
-		"int":                    5,
-		"string":                 "callback",
-		"nil":                    nil,
-		"func()":                 func() {},
-		"func(ctx) error":        func(context.Context) error { return nil },
-		"func(ctx, Type) error":  func(context.Context, vocab.Type) error { return nil },
-		"func(ctx, string) error": func(context.Context, string) error { return nil },
-		"func(ctx, Note)":        reflect.MakeFunc(reflect.FuncOf([]reflect.Type{tCtx, note.Iface}, nil, false), func([]reflect.Value) []reflect.Value { return nil }).Interface(),
-		"func(Note) error":       reflect.MakeFunc(reflect.FuncOf([]reflect.Type{note.Iface}, []reflect.Type{tErr}, false), func([]reflect.Value) []reflect.Value { return []reflect.Value{reflect.New(tErr).Elem()} }).Interface(),
+		"int":                         5,
+		"string":                      "callback",
+		"nil":                         nil,
+		"func()":                      func() {},
+		"func(ctx) error":             func(context.Context) error { return nil },
+		"func(ctx, Type) error":       func(context.Context, vocab.Type) error { return nil },
+		"func(ctx, string) error":     func(context.Context, string) error { return nil },
+		"func(ctx, Note)":             reflect.MakeFunc(reflect.FuncOf([]reflect.Type{tCtx, note.Iface}, nil, false), func([]reflect.Value) []reflect.Value { return nil }).Interface(),
+		"func(Note) error":            reflect.MakeFunc(reflect.FuncOf([]reflect.Type{note.Iface}, []reflect.Type{tErr}, false), func([]reflect.Value) []reflect.Value { return []reflect.Value{reflect.New(tErr).Elem()} }).Interface(),
 		"func(ctx, Note, Note) error": reflect.MakeFunc(reflect.FuncOf([]reflect.Type{tCtx, note.Iface, note.Iface}, []reflect.Type{tErr}, false), func([]reflect.Value) []reflect.Value { return []reflect.Value{reflect.New(tErr).Elem()} }).Interface(),
 	}
 	good := mkCallback(log, 0, note, nil)
